@@ -409,10 +409,19 @@ func (d *Def) getChainMethodReturnType(
 	evaluatedT base.T,
 ) base.T {
 
+	// identifiers can resolve to each other in a cycle; follow each one only once
+	visited := make(map[string]bool)
+
 	for {
 		if !evaluatedT.IsIdentifierType() {
 			break
 		}
+
+		if visited[evaluatedT.ToString()] {
+			break
+		}
+
+		visited[evaluatedT.ToString()] = true
 
 		e.Eval(p, ctx, &evaluatedT)
 
